@@ -493,13 +493,26 @@ def r5(ctx):
     # setRoot clears every rank, then rebuilds
     f = ctx.method("Tensor", "setRoot")
     g = cfg_of(f, assert_edges=False)
-    clear = None
-    for n in f.own_nodes():
-        if isinstance(n, ast.For) and text(n.iter) == "self.ranks":
-            for c in pat.calls(n.body and ast.Module(body=n.body, type_ignores=[]).body
-                               and _walk(n.body), attr="clearFibers"):
-                if text(c.func.value) == text(n.target):
-                    clear = n
+    def clearing_loop(nodes):
+        for n in nodes:
+            if isinstance(n, ast.For) and text(n.iter) == "self.ranks":
+                for c in pat.calls(_walk(n.body), attr="clearFibers"):
+                    if text(c.func.value) == text(n.target):
+                        return n
+        return None
+    clear = clearing_loop(f.own_nodes())
+    if clear is None:
+        # ... or in a parameterless method of the tensor called here
+        for st in f.body:
+            if isinstance(st, ast.Expr) and isinstance(st.value, ast.Call) and \
+                    isinstance(st.value.func, ast.Attribute) and \
+                    text(st.value.func.value) == "self" and not st.value.args and \
+                    not st.value.keywords:
+                h = f.cls.methods.get(st.value.func.attr) if f.cls else None
+                if h is not None and h.node is not None and h.params == ["self"] and \
+                        clearing_loop(h.body) is not None:
+                    ctx.consulted.add(h.module.rel)
+                    clear = st
     add = [enclosing_stmt(c) for c in pat.calls(f, attr="_addFiber")]
     if clear is not None and add and g.dominates(clear, add[0]):
         ctx.ok("C02.R5", f, clear, "every rank is cleared before the rebuild")
